@@ -22,7 +22,7 @@ rm -rf /tmp/seed_aside_$ID
 echo "WITH: $with"; echo "WITHOUT: $without"; echo "SUITE(with patch): $suite"
 cd /verif
 git -C /repo apply $OUT/patch.diff || { echo "patch does not apply to /repo"; exit 1; }
-res=$(VERIF_EVIDENCE_DIR=/tmp/seed_evidence ./check $PROP --tier quick 2>/dev/null | tail -4)
+res=$(VERIF_EVIDENCE_DIR=/tmp/seed_evidence ./check $PROP --tier quick 2>/dev/null | grep -E "^VIOLATION|tier=" | head -4)
 git -C /repo checkout -- .
 echo "CHECK: $res"
 python3 - "$OUT" "$ID" "$PROP" "$with" "$without" "$suite" "$res" <<'PY'
